@@ -188,7 +188,8 @@ func readCurrentRegex(filePath string, ruleId string, chainOffset uint8) string 
 
 	lines := bytes.Split(contents, []byte("\n"))
 
-	idRegex := regexp.MustCompile(fmt.Sprintf("id:%s", ruleId))
+	// The ID must not be part of a longer ID and must not be mentioned in a comment
+	idRegex := regexp.MustCompile(fmt.Sprintf(`^[^#]*\bid:%s\b`, ruleId))
 	index := 0
 	var line []byte
 	foundRule := false
